@@ -67,15 +67,14 @@ def join(
     paths_in, path_out, path_temp = common.setup_task_paths(
         paths_in, path_out, allowed_input_suffixes=[".rtdc", ".tdms"])
 
-    # Order input files by date
+    # Order input files by acquisition time (numerically; a string key
+    # would put "12:00:00.50" before "12:00:00" and run 10 before run 9)
     key_paths = []
     for pp in paths_in:
         with new_dataset(pp) as dsa:
             # sorting key
-            key = "_".join([dsa.config["experiment"]["date"],
-                            dsa.config["experiment"]["time"],
-                            str(dsa.config["experiment"]["run index"])
-                            ])
+            key = (get_acquisition_time(dsa.config),
+                   dsa.config["experiment"]["run index"])
             key_paths.append((key, pp))
     sorted_paths = [p[1] for p in sorted(key_paths, key=lambda x: x[0])]
 
@@ -85,14 +84,7 @@ def join(
     t_offsets = np.zeros(len(sorted_paths), dtype=np.float64)
     for ii, pp in enumerate(sorted_paths):
         with new_dataset(pp) as dsb:
-            etime = dsb.config["experiment"]["time"]
-            st = time.strptime(dsb.config["experiment"]["date"]
-                               + etime[:8],
-                               "%Y-%m-%d%H:%M:%S")
-            t_offsets[ii] = time.mktime(st)
-            if len(etime) > 8:
-                # floating point time stored as well (HH:MM:SS.SS)
-                t_offsets[ii] += float(etime[8:])
+            t_offsets[ii] = get_acquisition_time(dsb.config)
     t_offsets -= t_offsets[0]
 
     # Determine features to export (based on first file)
@@ -210,6 +202,18 @@ def join(
     path_temp.rename(path_out)
     if ret_path:
         return path_out
+
+
+def get_acquisition_time(config):
+    """Return the start of a measurement in seconds since the epoch"""
+    etime = config["experiment"]["time"]
+    st = time.strptime(config["experiment"]["date"] + etime[:8],
+                       "%Y-%m-%d%H:%M:%S")
+    t_start = time.mktime(st)
+    if len(etime) > 8:
+        # floating point time stored as well (HH:MM:SS.SS)
+        t_start += float(etime[8:])
+    return t_start
 
 
 def join_parser():
